@@ -251,7 +251,7 @@ PROPS = {
     "C15": {"kind": "cl", "title": "CL03 proof of knowledge of a signature",
             "level_text": CLTXT + "MC_clproto.tla models issuance and presentation as a state machine over abstract artefacts (what a signature signs is its content: per position the multiset of attribute atoms in the exponent); TLC checks C14honest, C14refuses, C13unique, C15asmade on every behaviour with at most MaxDev deviations from the honest protocol, exports every complete behaviour with the expected outcome of each call, and `zkv-cl proto` replays them on real keys (specification -> implementation). C15: invariant C15used (every leaf the format carries is used by the verifier); every hidden subset, single edits of the statement, and every integer leaf of the serialised proof perturbed (+1, -1, 0, swap)."},
     "C16": {"kind": "cl", "title": "Boudot range proof",
-            "level_text": CLTXT + "C16: invariant C16anchored (every part of the square decomposition is certified by a sub-proof tied to a recomputed value); widths 1, 2, 3, 2^8, 2^64, 2^256-1 (thorough 2^1024-1), positions a, a+1, mid, b-1, b, random, three base sets; other bounds / bases / modulus; invariant C16tolerance (toy intervals: only in-range values are acceptable given what the larger-interval proof shows); transplants onto a-1, b+1, a-2^k, b+2^k and a random element; shifted proofs (commitment divided by g^d, larger-interval responses moved accordingly) onto a-1, b+1, a-w, b+w; every leaf +-1; the honest prover outside the interval."},
+            "level_text": CLTXT + "C16: invariant C16anchored (every part of the square decomposition is certified by a sub-proof tied to a recomputed value); widths 1, 2, 3, 2^8, 2^64, 2^256-1 (thorough 2^1024-1), positions a, a+1, mid, b-1, b, random, three base sets; other bounds / bases / modulus; invariant C16tolerance (toy intervals: only in-range values are acceptable given what the larger-interval proof shows); Apalache discharges BoudotLemmas!BoudotTolerance (the same arithmetic for all security parameters and all widths, SMT); transplants onto a-1, b+1, a-2^k, b+2^k and a random element; shifted proofs (commitment divided by g^d, larger-interval responses moved accordingly) onto a-1, b+1, a-w, b+w; every leaf +-1; the honest prover outside the interval."},
     "C17": {"kind": "cl", "title": "CL03 proofs do not carry openings",
             "level_text": CLTXT + "C17: invariant C17noOpenings (the intended formats contain no commitment randomness); the leaf paths of real proofs must equal the specification's format; every (value, randomness) pair is tested against every public base pair and hidden secret, a two-candidate dictionary attack and the recovery of v; implied blindings s - c x of all responses pairwise distinct (also across sub-proofs with different challenges, with and without a trusted commitment); invariant C17split and CLRangeSplit events: the four randomness parts of every range proof decomposition are independent (no product of two proof fields is a function of the hidden value alone)."},
     "C18": {"kind": "cl", "title": "CL03 keys and parameters",
@@ -800,12 +800,30 @@ def cl_validate(path, dev, name):
     raise ToolError("TLC failed on CL trace: " + out[-1500:])
 
 
+def apalache_inv(module, inv, name):
+    """check an invariant of spec/apalache/<module>.tla for all values (length 0): 'holds', 'violated' or a tool note"""
+    p = sh(["timeout", "600", "apalache-mc", "check", "--init=Init", "--next=Next", "--inv=" + inv, "--length=0",
+            "--out-dir=" + os.path.join(BUILD, "apalache_" + name), module + ".tla"], cwd=os.path.join(SPEC, "apalache"), check=False, timeout=700)
+    if "The outcome is: NoError" in p.stdout:
+        return "holds"
+    if "violat" in p.stdout.lower():
+        return "violated"
+    return "apalache-mc did not complete (tool problem, not counted): " + p.stdout[-200:]
+
+
 def run_cl_property(prop, tier):
     t0 = time.time()
     spec = CL[prop]
     build_harness(cl=True)
     violations = []
     known = []
+    unbounded = None
+    if prop == "C16":
+        # the tolerance arithmetic for all security parameters and widths (Apalache, SMT)
+        r = apalache_inv("BoudotLemmas", "BoudotTolerance", "boudot")
+        if r == "violated":
+            violations.append({"property": prop, "what": "Apalache: BoudotLemmas!BoudotTolerance is violated (specification level)"})
+        unbounded = "BoudotLemmas!BoudotTolerance (tolerance of the repaired range proof below one unit for all E = 2^(t+l), all widths): " + r
     # --- specification level: the bounded slices of MC_cl.tla
     consts = {"Dev": "{}", "MaxN": 2, "Bound": 60 if tier == "quick" else 230}
     rc, out = tlc("MC_cl", cfg_text(consts, init="Init", invariants=spec["inv"]), "%s_cl_%s" % (prop, tier), workers=1, timeout=3000)
@@ -916,7 +934,7 @@ def run_cl_property(prop, tier):
             "samples": samples[:4], "logs": logs, "slice_invariants": spec["inv"], "slice_constants": consts,
             "as_is_specification_violates": spec_level, "known_findings_reobserved": known, "exhaustive": False,
             "informational_missing_links_F11": missing_links, "informational_events": info[:6],
-            "protocol_behaviours_replayed": proto,
+            "protocol_behaviours_replayed": proto, "unbounded_lemmas": unbounded,
         },
         "assumptions": ["CL03 runs against a GMP built without assembly (no m4 in the sandbox)",
                         "toy RSA moduli from safe primes below Bound; attribute size 3 bits in the toy model",
@@ -989,6 +1007,9 @@ def selftest():
     expect_violation("MC_codec", {"Dev": '{"F14"}', "MaxN": 1}, ["C08"], "C08", "F14", init="Init")
     for dev, inv in (("F7", "C13toy"), ("F8", "C16anchored"), ("F13", "C16tolerance"), ("F9", "C17noOpenings"), ("F10", "C19masks")):
         expect_violation("MC_cl", {"Dev": '{"%s"}' % dev, "MaxN": 1, "Bound": 12}, [inv], inv, dev, init="Init")
+    r = apalache_inv("BoudotLemmas", "AsIsTolerance", "selftest_asis")
+    print("  [%s] Apalache, BoudotLemmas!AsIsTolerance (the pinned range-proof parameters, F13): %s" % ("ok" if r == "violated" else "FAIL", r))
+    ok &= (r == "violated")
     rc, out = tlc("MC_rng", RNG_CFG % "TRUE", "selftest_rng", workers=4)
     hit = "Invariant Fresh is violated" in out
     print("  [%s] MC_rng with a shared stream: %s" % ("ok" if hit else "FAIL", "Fresh violated" if hit else "NOT violated"))
